@@ -74,6 +74,13 @@ def run(ctx: core.Ctx):
                 ctx.violation(f"{h}.hedge/result-aliased", {"hedge": h}, "unchanged by a later call", "modified", note="an earlier result array was overwritten by a later call of the same shape")
             elif again.shape != arg.shape or not np.allclose(again.ravel(), V[::-1], rtol=0, atol=TOL, equal_nan=True):
                 ctx.violation(f"{h}.hedge/formula/second-{form}-call", {"hedge": h}, "table (reversed)", "differs")
+            # batches of length one keep their shape: (1,) and (1, 1)
+            for one in (np.array([X[len(X) // 2]]), np.array([[X[len(X) // 3]]])):
+                r1 = np.asarray(hs[h].hedge(one))
+                ctx.count()
+                if r1.shape != one.shape or not np.allclose(r1.ravel(), [float(hs[h].hedge(float(one.ravel()[0])))], rtol=0, atol=TOL, equal_nan=True):
+                    ctx.violation(f"{h}.hedge/single-element-array", {"hedge": h, "shape": list(one.shape)}, list(one.shape), list(r1.shape),
+                                  note="an array holding one degree must give an array of the same shape holding the value of that degree")
             # the caller's own array, updated in place between two calls (degrees[:] = ...), as a rule block reprocessing new inputs does
             buf = arg.copy()
             hs[h].hedge(buf)
